@@ -11,6 +11,11 @@ def main():
     assert subprocess.run(["git", "-C", "/repo", "status", "--porcelain", "--untracked-files=no"], stdout=subprocess.PIPE).stdout.strip() == b"", "/repo not clean"
     subprocess.run(["git", "-C", "/repo", "apply", patch], check=True)
     results = {}
+    # the evidence files belong to runs on the UNCHANGED tree: keep them aside and put them back afterwards
+    saved = {}
+    for pid in pids:
+        ev = os.path.join(HERE, "evidence", pid + ".json")
+        saved[ev] = open(ev, "rb").read() if os.path.exists(ev) else None
     try:
         for pid in pids:
             t0 = time.time()
@@ -23,6 +28,9 @@ def main():
                 print("   ", l)
     finally:
         subprocess.run(["git", "-C", "/repo", "checkout", "--", "."], check=True)
+        for ev, data in saved.items():
+            if data is not None:
+                open(ev, "wb").write(data)
     json.dump(results, open(os.path.join(HERE, "seeded", name, "last_run.json"), "w"), indent=1)
 
 
